@@ -70,7 +70,9 @@ def gen_case(rng):
                 ops.append(["edef", ver])                                    # (re)define the exec-built function
             elif r < 0.40:
                 ops.append(["pcall", "f", "cur", rng.randint(1, 2)])          # call through a pickle round trip of the wrapper
-            elif r < 0.43:
+            elif r < 0.415:
+                ops.append(["fcall", rng.choice(KINDS), "cur", rng.randint(1, 2)])   # MemorizedFunc.call: forced execution, result stored
+            elif r < 0.44:
                 ops.append(["readonly", rng.random() < 0.6])                     # fault: the store refuses writes / deletions
             else:
                 kind = rng.choice(KINDS)
@@ -210,7 +212,7 @@ def session(root, ops, si=0):
             elif not op[1] and ro["on"]:
                 ro["on"] = False
                 set_ro(False)
-        elif op[0] in ("call", "pcall"):
+        elif op[0] in ("call", "pcall", "fcall"):
             ent = live.get((op[1], op[2]))
             if ent is None:
                 continue
@@ -222,11 +224,12 @@ def session(root, ops, si=0):
                 if op[0] == "pcall":
                     import pickle
                     fcall = pickle.loads(pickle.dumps(ent[1]))       # what dispatching the wrapper to a worker does
-                r = fcall(op[3])
+                r = fcall(op[3]) if op[0] != "fcall" else fcall.call(op[3])[0]
             except BaseException as e:  # noqa
                 r = ("EXC", type(e).__name__, str(e)[:100])
             n1 = len(mod.CALLS) + sum(len(getattr(sys.modules.get(m), "CALLS", ())) for m in list(sys.modules) if m.startswith("vm_swap"))
-            out.append((i, op[1], ent[0], op[3], r, n1 - n0, op[2] != "cur" and ent is not live.get((op[1], "cur")), ro["on"] or ro["ever"]))
+            out.append((i, op[1], ent[0], op[3], r, n1 - n0, op[2] != "cur" and ent is not live.get((op[1], "cur")), ro["on"] or ro["ever"],
+                        op[0] == "fcall"))
             ro["ever"] = ro["ever"] or ro["on"]
     return out
 
@@ -247,7 +250,7 @@ def run_case(case):
                 return {"verdict": None, "harness_error": "session %d: %s %s" % (si, kind, str(res)[:500])}
             stats["restarts"] += 1 if si else 0
             stats["reloads"] += sum(1 for o in ops[1:] if o[0] == "define")
-            for (i, k, ver, x, r, executed, older, ro_seen) in res:
+            for (i, k, ver, x, r, executed, older, ro_seen, forced) in res:
                 ro_hist[0] = ro_hist[0] or ro_seen
                 hs.update(("%s%s%d" % (k, "o" if older else "n", executed)).encode())
                 h.update(repr((k, ver, x, r, executed)).encode())
@@ -259,7 +262,9 @@ def run_case(case):
                     if c["ver"] is not None:
                         stats["version_changes_then_call"] += 1
                     c["ver"] = ver; c["keys"] = set()
-                exp_exec = 0 if x in c["keys"] else 1
+                exp_exec = 0 if (x in c["keys"] and not forced) else 1
+                if forced:
+                    stats["forced_calls"] = stats.get("forced_calls", 0) + 1
                 c["keys"].add(x)
                 if verdict is not None:
                     continue
@@ -278,7 +283,8 @@ def run_case(case):
                                "sig": dict(sig, what="cache_not_kept" if executed > exp_exec else "stale_hit", kind=k)}
         return {"verdict": verdict, "digest": h.hexdigest()[:24], "shape": hs.hexdigest()[:16], "steps": sum(len(s) for s in case["sessions"]),
                 "switches": 0, "sim_time": 0.0, "faults": {"process_restart": stats["restarts"], "in_session_redefinition": stats["reloads"]},
-                "probes": {"call_after_version_change": stats["version_changes_then_call"], "calls_of_older_definition": stats["older_calls"]},
+                "probes": {"call_after_version_change": stats["version_changes_then_call"], "calls_of_older_definition": stats["older_calls"],
+                           "forced_executions_MemorizedFunc_call": stats.get("forced_calls", 0)},
                 "nontrivial": bool(stats["version_changes_then_call"]), "sample": case["sessions"][:2]}
     finally:
         shutil.rmtree(root, ignore_errors=True)
